@@ -43,6 +43,31 @@ def _uninit_name(t):
     return None
 
 
+def _public(ip, dom):
+    """the documented read interface of a Domain: dr, dk, length (properties), r, k, long_r"""
+    out = {}
+    for nm in ('dr', 'dk', 'length', 'r', 'k', 'long_r'):
+        try:
+            v = ip.get_attr(dom, nm, None)
+        except (Raised, Unsupported):
+            continue
+        t = W.attr_term(ip, v)
+        if t is not None:
+            out[nm] = t
+    return out
+
+
+def _behaviour(ip, dom):
+    """what the two scalar transforms of this Domain return for the same symbolic inputs"""
+    ip.declare('f', 'curve')
+    ip.declare('F', 'curve')
+    out = {}
+    for nm, sym in (('to_fourier', 'f'), ('to_real', 'F')):
+        res = ip.call(ip.find_method(dom, nm), [Arr(N.sym(sym), 'array', ip)], {})
+        out[nm + '(%s)' % sym] = ip.term_of(res)[0]
+    return out
+
+
 def _compare_states(ip, got, want):
     bad = []
     for k in sorted(want):
@@ -103,26 +128,81 @@ def rule_mutators(ctx, rule='R07.i'):
             ip = _new_ip(ctx.prog)
             dom, (L1, d1) = build(ip)
             got = _state(ip, dom)
+            got_pub = _public(ip, dom)
             twin = W.fresh_domain(ip, Num(L1), dr=Num(d1))
             want = _state(ip, twin)
+            want_pub = _public(ip, twin)
+            # the transforms of the mutated Domain against those of the fresh one (whatever private attributes, instance
+            # or class level, the coefficients are kept in)
+            got_beh = _behaviour(ip, dom)
+            want_beh = _behaviour(ip, twin)
         except (Unsupported, Raised) as e:
             ctx.undecided(rule, construct, str(e), finfo.loc())
             continue
         n += 1
-        missing = [a for a in BASE_DERIVED if a not in want]
+        missing = [a for a in ('dr', 'dk', 'length', 'r', 'k') if a not in want_pub]
         if missing:
-            ctx.undecided(rule, construct, 'fresh Domain lacks expected grid attributes %s (renamed?)' % missing, finfo.loc())
+            ctx.undecided(rule, construct, 'fresh Domain lacks the documented attributes %s' % missing, finfo.loc())
             continue
         bad = _compare_states(ip, got, want)
+        bad += [b for b in _compare_states(ip, got_pub, want_pub) if b not in bad and b.split(' ')[0] not in got]
+        bad += _compare_states(ip, got_beh, want_beh)
         if bad:
             ctx.violation(rule, construct, 'stale:' + ','.join(sorted(b.split(' ')[0] for b in bad)),
                           'after %s the Domain differs from a freshly constructed one with the same length and dr: %s'
                           % (name, '; '.join(bad)), finfo.loc())
         else:
-            ctx.holds(rule, construct, 'all %d grid attributes equal those of Domain(length\', dr\') -- invariant '
-                      'dr*dk*length=pi and derived arrays re-established' % len(want), finfo.loc(),
-                      sample={'mutator': name, 'dk': N.show(got['_dk']), 'r': P.show(got['r'])})
+            ctx.holds(rule, construct, 'all %d grid attributes, the documented read interface and both transforms equal those of '
+                      'Domain(length\', dr\') -- invariant dr*dk*length=pi and derived arrays re-established' % len(want), finfo.loc(),
+                      sample={'mutator': name, 'dk': N.show(got_pub['dk']), 'r': P.show(got_pub['r'])})
     ctx.floor(rule, n, 4, 'Domain mutators (__init__ via dk, setters dr/dk/length)')
+
+
+def rule_two_domains(ctx, rule='R07.j'):
+    """a Domain is determined by its own length and spacing: after a *second* Domain with another length and spacing was
+    constructed -- and then re-configured through each setter -- in the same process, the first one still has the state,
+    the read interface and the transforms of a fresh Domain(length, dr).  Catches grid data kept at class or module
+    level."""
+    cls = ctx.prog.cls(DOMAIN)
+    m = cls.find_method('__init__')
+    construct = DOMAIN + '::two-instances'
+    try:
+        ip = _new_ip(ctx.prog)
+        L, d = _sym_int(ip, 'L'), ip.declare('dr')
+        dom = W.fresh_domain(ip, Num(L), dr=Num(d))
+        ref_ip = _new_ip(ctx.prog)
+        Lr, dr_ = _sym_int(ref_ip, 'L'), ref_ip.declare('dr')
+        ref = W.fresh_domain(ref_ip, Num(Lr), dr=Num(dr_))
+        want = dict(_state(ref_ip, ref))
+        want.update(_public(ref_ip, ref))
+        want.update(_behaviour(ref_ip, ref))
+        steps = []
+        L2, d2 = _sym_int(ip, 'L2'), ip.declare('dr2')
+        other = W.fresh_domain(ip, Num(L2), dr=Num(d2))
+        steps.append('another Domain(length=L2, dr=dr2) was constructed')
+        bad = []
+
+        def compare(after):
+            got = dict(_state(ip, dom))
+            got.update(_public(ip, dom))
+            got.update(_behaviour(ip, dom))
+            for b in _compare_states(ip, got, want):
+                bad.append('after %s: %s' % (after, b))
+        compare(steps[-1])
+        for sname in sorted(cls.setters):
+            v = _sym_int(ip, 'L3') if sname == 'length' else ip.declare('v_' + sname)
+            ip.set_attr(other, sname, Num(v), None)
+            compare('the other Domain\'s %s was re-assigned' % sname)
+            if bad:
+                break
+    except (Unsupported, Raised) as e:
+        ctx.undecided(rule, construct, str(e), m.loc())
+        return
+    if bad:
+        ctx.violation(rule, construct, 'shared-state', '; '.join(bad[:3]), m.loc())
+    else:
+        ctx.holds(rule, construct, 'constructing and re-configuring a second Domain leaves the first one equal to a fresh '
+                  'Domain(length, dr): state, read interface and both transforms', m.loc())
 
 
 def _fresh(ctx):
@@ -137,10 +217,10 @@ def rule_grid(ctx, rule='R07.g'):
     cls = ctx.prog.cls(DOMAIN)
     bg = cls.find_method('build_grid') or cls.find_method('__init__')
     ip, dom, L, d = _fresh(ctx)
-    st = _state(ip, dom)
+    st = _public(ip, dom)
     iota = N.fn('iota', L)
     dk = N.PI / (d * L)
-    checks = [('_dk', dk, 'R08.k'), ('r', d * (1 + iota), rule), ('k', dk * (1 + iota), rule)]
+    checks = [('dk', dk, 'R08.k'), ('r', d * (1 + iota), rule), ('k', dk * (1 + iota), rule)]
     for attr, want, rid in checks:
         construct = '%s::%s' % (DOMAIN, attr)
         got = st.get(attr)
@@ -183,8 +263,8 @@ def rule_prefactors(ctx, rule='R08.f'):
     """absolute prefactors: forward dst2(2 pi r dr f)/k, backward dst3(k dk/(4 pi^2) F)/r, un-normalised DST"""
     cls = ctx.prog.cls(DOMAIN)
     ip, dom, L, d, f, F, tf, tr = _transforms(ctx)
-    st = _state(ip, dom)
-    r, k, dk = st['r'], st['k'], st['_dk']
+    st = _public(ip, dom)
+    r, k, dk = st['r'], st['k'], st['dk']
     for nm, got, want, fn_, rid in (
             ('to_fourier', tf, N.fn('dst2', 2 * N.PI * r * d * N.sym('f')) / k, 'to_fourier', 'R08.f'),
             ('to_real', tr, N.fn('dst3', k * dk / (4 * N.PI * N.PI) * N.sym('F')) / r, 'to_real', 'R08.b')):
@@ -268,6 +348,9 @@ def rule_linearity(ctx, rule='R07.l'):
         for e in ip.events[e0:]:
             if e['kind'] == 'write' and (e['target'] or '').startswith('array'):
                 bad.append('writes its argument in place at %s' % e['loc'])
+            elif e['kind'] == 'dtype-cast' and (e['target'] or '').startswith('array'):
+                bad.append('the result is stored into an array that has the dtype of the argument (%s at %s): integer or boolean '
+                           'input is truncated' % (e.get('via'), e['loc']))
         root = out_f
         while isinstance(root, View):
             root = root.base
